@@ -607,14 +607,17 @@ func genCliBody(rng *rand.Rand, thorough bool, emit func(*Sx)) {
 			}
 			stream := "220 ready\r\n" + ehloReply(keys) + strings.Repeat("250 2.0.0 ok\r\n", 4)
 			run := func(mo *smtp.MailOptions) {
-				cs := cliCase{stream: []byte(stream), focus: "body"}
-				cs.cuts = randCuts(rng, cs.stream)
-				cs.calls = []cliCall{
-					{kind: "mail", s: "from@example.org", mopts: mo, ann: []*Sx{advSx(keys)}},
-					{kind: "rcpt", s: "to@example.org", ann: []*Sx{advSx(keys)}},
-					{kind: "noop"},
+				// (an LMTP client negotiates like any other: what its LHLO reply did not offer is not sent)
+				for _, lm := range []bool{false, true} {
+					cs := cliCase{stream: []byte(stream), focus: "body", lmtp: lm}
+					cs.cuts = randCuts(rng, cs.stream)
+					cs.calls = []cliCall{
+						{kind: "mail", s: "from@example.org", mopts: mo, ann: []*Sx{advSx(keys)}},
+						{kind: "rcpt", s: "to@example.org", ann: []*Sx{advSx(keys)}},
+						{kind: "noop"},
+					}
+					emit(runCli(cs))
 				}
-				emit(runCli(cs))
 			}
 			run(nil)
 			for _, b := range bodies {
